@@ -12,7 +12,8 @@ def faithful : Cfg :=
   { firstFlowDecides := Bpmn.Gen.Engine.firstFlowDecides.getD true
     subNeverReturns := Bpmn.Gen.Engine.subNeverReturns.getD true
     inclCohort := Bpmn.Gen.Engine.inclCohort.getD true
-    subStartSticky := Bpmn.Gen.Engine.subStartSticky.getD true }
+    subStartSticky := Bpmn.Gen.Engine.subStartSticky.getD true
+    throwFuse := Bpmn.Gen.Engine.throwFuse.getD true }
 
 def implFinalVars (c : Case) : Option Vars :=
   c.final.bind (fun ws => (kv ws "vars").map (fun s => parseVars s))
